@@ -7,6 +7,9 @@ mod common;
 mod gen;
 mod sup;
 mod c07;
+mod c08;
+mod c11;
+mod ind;
 mod c13;
 mod c14;
 mod refm;
@@ -42,6 +45,10 @@ fn main() {
     };
     let checks: Vec<(&str, fn(&Ctx) -> i32)> = vec![
         ("C07", c07::run),
+        ("C08", c08::run08),
+        ("C09", c08::run09),
+        ("C10", c08::run10),
+        ("C11", c08::run11),
         ("C13", c13::run),
         ("C14", c14::run),
         ("C15", c15::run),
